@@ -107,6 +107,10 @@ class Out:
         )
         w.update(self.ctx)
         w.update(kw)
+        # core.jsonable flattens deep nesting: keep exact copies for replay
+        w['spec_json'] = json.dumps(spec)
+        if 'spec_b' in w:
+            w['spec_b_json'] = json.dumps(w['spec_b'])
         self.w.append(w)
 
     def raised(self, what: str, spec: dict[str, Any], e: BaseException, **kw: Any) -> None:
@@ -390,9 +394,15 @@ def check_case(
                 out.raised('get_unitary', spec, e, params=params, style=style, during='finite differences')
     # ---- get_unitary_and_grad
     try:
-        U2, G2 = gate.get_unitary_and_grad(params)
+        U2m, G2 = gate.get_unitary_and_grad(params)
         out.cnt('oracle:uag')
-        U2 = np.asarray(U2, dtype=np.complex128)
+        ur2 = getattr(U2m, 'radixes', None)
+        if ur2 is not None and tuple(ur2) != rad:
+            out.bad(
+                'advertised:mismatch', spec, params=params, style=style,
+                problems=['get_unitary_and_grad: returned UnitaryMatrix.radixes %s != gate.radixes %s' % (tuple(ur2), rad)],
+            )
+        U2 = np.asarray(U2m, dtype=np.complex128)
         G2 = np.asarray(G2)
         if U2.shape != U.shape or maxabs(U2 - U) > TOL_EQ:
             # undecidable where get_unitary itself jumps under a 1e-9 nudge
@@ -938,7 +948,9 @@ def main(tier: str, seed: int, replay: str | None = None) -> int:
 
 def do_replay(run: core.Run, path: str) -> int:
     w = json.load(open(path))['witness']
-    spec = w['spec']
+    spec = json.loads(w['spec_json']) if 'spec_json' in w else w['spec']
+    if 'spec_b_json' in w:
+        w['spec_b'] = json.loads(w['spec_b_json'])
     out = Out('replay')
     kind = w.get('kind', '')
     print('replaying %s on %s' % (kind, json.dumps(spec)[:300]))
